@@ -741,9 +741,38 @@ class Executor:
             return ("agg", v[1].key())
         return ("other", repr(v))
 
+    def builtin(self, short, callee, args):
+        """exact models of a few std functions that are not worth inlining"""
+        def const_of(v):
+            m = re.match(r"^\(_ bv(\d+) (\d+)\)$", v.t) if isinstance(v, Val) else None
+            return int(m.group(1)) if m else None
+        if re.search(r"num::<impl u(8|16|32|64|128|size)>::pow$", callee) and len(args) == 2:
+            a, b = const_of(args[0]), const_of(args[1])
+            if a is not None and b is not None and a ** b < (1 << args[0].s[1]):
+                return Val(bvconst(a ** b, args[0].s[1]), args[0].s)
+            return None
+        if all(isinstance(a, Val) and a.s[0] == "bv" for a in args) and len(args) == 2 and args[0].s == args[1].s:
+            a, b = args
+            w, sg = a.s[1], a.s[2]
+            lt = "bvslt" if sg else "bvult"
+            if re.search(r"(as Ord>::min|cmp::min)$", short):
+                return Val("(ite (%s %s %s) %s %s)" % (lt, b.t, a.t, b.t, a.t), a.s)
+            if re.search(r"(as Ord>::max|cmp::max)$", short):
+                return Val("(ite (%s %s %s) %s %s)" % (lt, a.t, b.t, b.t, a.t), a.s)
+            if re.search(r"intrinsics::saturating_add$", short) and not sg:
+                return Val("(ite (bvult (bvadd %s %s) %s) %s (bvadd %s %s))" % (a.t, b.t, a.t, bvconst((1 << w) - 1, w), a.t, b.t), a.s)
+            if re.search(r"intrinsics::saturating_sub$", short) and not sg:
+                return Val("(ite (bvult %s %s) %s (bvsub %s %s))" % (a.t, b.t, bvconst(0, w), a.t, b.t), a.s)
+        return None
+
     def do_call(self, st, fn, dst_text, callee, argtexts, frame):
         args = [self.operand(st, fn, a, frame) for a in argtexts]
         short = re.sub(r"::<.*?>", "", callee)
+        bi = self.builtin(short, callee, args)
+        if bi is not None:
+            dstp = self.parse_place(st, fn, dst_text, frame)
+            self.write_place(st, fn, dstp, bi, frame)
+            return None
         # inline?
         if any(r.search(short) for r in self.inline):
             cands = self.find_callee(callee)
@@ -757,12 +786,12 @@ class Executor:
         desc = [self.describe_arg(st, a) for a in args]
         pure = any(r.search(short) for r in self.pure)
         if pure and dsort is None:
-            # pure call with an aggregate result: no memory is havocked, the result is unconstrained
-            for k in [k for k in st.store if has_prefix(k, dst.key())]:
-                del st.store[k]
-            st.alias.pop(dst.key(), None)
-            st.epoch[dst.key()] = st.epoch.get(dst.key(), 0) + 1
-            st.calls.append((short, desc, dst.key(), None))
+            # pure call with an aggregate result: no memory is havocked; the result's leaves are
+            # input-like variables named after the call, so that pre-conditions can constrain them
+            sig = short + "(" + ",".join(d[1].t if d[0] == "val" else str(d[1]) for d in desc) + ")"
+            self.clear_prefix(st, dst.key())
+            st.alias[dst.key()] = "call:" + sig
+            st.calls.append((short, desc, "call:" + sig, None))
             return None
         if pure:
             # uninterpreted: same callee + same argument identities/terms => same result variable
@@ -813,8 +842,13 @@ class Executor:
             stmts = fn.blocks.get(bb)
             if stmts is None:
                 raise Untranslatable("missing block " + bb)
-            for s in stmts[:-1]:
-                self.exec_stmt(st, fn, s, frame)
+            try:
+                for s in stmts[:-1]:
+                    self.exec_stmt(st, fn, s, frame)
+            except Untranslatable as e:
+                # the path must be shown infeasible by the query, otherwise the query is skipped
+                self.paths.append(Path(st, "untranslatable", str(e), fn))
+                return
             term = stmts[-1].rstrip(";")
             # ---- terminators
             m = re.match(r"^goto -> (bb\d+)$", term)
